@@ -647,14 +647,7 @@ where
     /// # Safety
     /// `entity_allocator` must contain entries for the entities stored in the archetype.
     pub(crate) unsafe fn clear(&mut self, entity_allocator: &mut entity::Allocator<R>) {
-        // Clear each column.
-        // SAFETY: `self.components` has the same number of values as there are set bits in
-        // `self.identifier`. Also, each element in `self.components` defines a `Vec<C>` of size
-        // `self.length` for each `C` identified by `self.identifier`.
-        //
-        // The `R` over which `self.identifier` is generic is the same `R` on which this function
-        // is being called.
-        unsafe { R::clear_components(&mut self.components, self.length, self.identifier.iter()) };
+        let length = self.length;
 
         // Free each entity.
         let mut entity_identifiers = ManuallyDrop::new(
@@ -676,6 +669,18 @@ where
         entity_identifiers.clear();
 
         self.length = 0;
+
+        // Clear each column. This is done last, with the length already reset: clearing runs the
+        // destructors of the components, and should one of them panic the values not yet dropped
+        // are leaked instead of being dropped again together with the archetype.
+        //
+        // SAFETY: `self.components` has the same number of values as there are set bits in
+        // `self.identifier`. Also, each element in `self.components` defines a `Vec<C>` of size
+        // `length` for each `C` identified by `self.identifier`.
+        //
+        // The `R` over which `self.identifier` is generic is the same `R` on which this function
+        // is being called.
+        unsafe { R::clear_components(&mut self.components, length, self.identifier.iter()) };
     }
 
     /// Clear the archetype as a detached entity.
@@ -684,18 +689,21 @@ where
     /// entities from an `entity::Allocator`. It is for use in contexts such as
     /// `Clone::clone_from()`.
     pub(crate) fn clear_detached(&mut self) {
+        // Note that we don't need to touch the entity identifiers in this case. Setting the length
+        // to `0` is sufficient because the entity identifiers are `Copy`. The length is reset
+        // before the columns are cleared, so that a panicking destructor cannot lead to values
+        // being dropped again together with the archetype.
+        let length = self.length;
+        self.length = 0;
+
         // Clear each column.
         // SAFETY: `self.components` has the same number of values as there are set bits in
         // `self.identifier`. Also, each element in `self.components` defines a `Vec<C>` of size
-        // `self.length` for each `C` identified by `self.identifier`.
+        // `length` for each `C` identified by `self.identifier`.
         //
         // The `R` over which `self.identifier` is generic is the same `R` on which this function
         // is being called.
-        unsafe { R::clear_components(&mut self.components, self.length, self.identifier.iter()) };
-
-        // Note that we don't need to touch the entity identifiers in this case. Setting the length
-        // to `0` is sufficient because the entity identifiers are `Copy`.
-        self.length = 0;
+        unsafe { R::clear_components(&mut self.components, length, self.identifier.iter()) };
     }
 
     /// Decrease the allocated capacity for the component columns and entity identifier column.
